@@ -2,13 +2,17 @@
 
 use crate::report::Tier;
 
+pub mod c02;
 pub mod c06;
 pub mod c11;
 pub mod c17;
+pub mod seeds;
 
 /// Run the check for a property; returns the process exit code.
 pub fn run(prop: &str, tier: Tier, seed: u64) -> Option<i32> {
     Some(match prop {
+        "C02" => c02::run(tier, seed),
+        "C08" => c02::run_c08(tier, seed),
         "C06" => c06::run(tier, seed),
         "C11" => c11::run(tier, seed),
         "C17" => c17::run(tier, seed),
@@ -18,6 +22,7 @@ pub fn run(prop: &str, tier: Tier, seed: u64) -> Option<i32> {
 
 pub fn replay(prop: &str, witness: &serde_json::Value) -> Option<i32> {
     Some(match prop {
+        "C02" | "C08" => c02::replay(witness),
         "C06" => c06::replay(witness),
         "C11" => c11::replay(witness),
         "C17" => c17::replay(witness),
